@@ -32,12 +32,12 @@ CHECKS = {
   "DESIGN.md §5 C05"),
  "C06": ("envx+enum",
   "every frame emitted in a scenario set reaching every originator is validated by an independent RFC-derived decoder; exhaustive enumeration of UDP payloads (all 2-byte values, all lengths) and echo lengths; bounded environment exploration for the TCP originators",
-  "UDP over IPv4 and IPv6: all 65536 two-byte payloads (checksum through all values) and lengths 0..1472; ICMPv4/ICMPv6 echo replies for lengths 0..MTU; TCP (SYN/SYN-ACK with all option sets, data with timestamps/SACK blocks, ACK, FIN, RST from handshake checks and for 64 stray flag combinations) in two-stack and raw-peer runs under budget-1 deviations. Each frame: decodes, length fields equal actual lengths, IPv4 header / ICMP / UDP / TCP checksums verify (UDP/IPv6 zero checksum is a violation), options well-formed and padded, SYN-only options only on SYN, source is an address of the emitting stack, consecutive >68-byte packets of a flow carry different IPv4 ids.",
+  "UDP over IPv4 and IPv6: all 65536 two-byte payloads (checksum through all values) and lengths 0..1472 plus 13 lengths around the 16-bit limits (65486..65535); ICMPv4/ICMPv6 echo replies for lengths 0..MTU; TCP (SYN/SYN-ACK with all option sets, data with timestamps/SACK blocks, ACK, FIN, RST from handshake checks and for 64 stray flag combinations) in two-stack and raw-peer runs under budget-1 deviations. Each frame: decodes, length fields equal actual lengths, IPv4 header / ICMP / UDP / TCP checksums verify (UDP/IPv6 zero checksum is a violation), options well-formed and padded, SYN-only options only on SYN, source is an address of the emitting stack, consecutive >68-byte packets of a flow carry different IPv4 ids.",
   "Ethernet-level addressing (destination MAC) and ARP/NDP frames are exercised by the C12 scenarios once built.",
   "DESIGN.md §4, §5 C06"),
  "C11": ("enum+seqx+coop",
   "exhaustive enumeration of payload lengths x socket kinds on two real stacks; explicit-state search over all interleavings of sends, reads, shutdown, close against a reference queue; stateless model checking of concurrent readers vs delivery",
-  "Every payload length 0..1472 over IPv4, IPv6 and v4-mapped destinations through sender kinds {bound *, bound specific, connected, unbound} x receiver kinds {bound *, bound specific, connected}; lengths {1473, 2000, 65507, 65508, 65527, 65528, 65535, 65536}: one emitted packet with exactly those bytes and consistent length fields, or an error and no packet; every Read returns one datagram byte-for-byte with the true source address/port, once; all sequences of length <=5 (6) over sends from two senders, read, shutdown(read), close with a two-datagram receive buffer; raw datagrams whose IP payload is longer than the UDP length; 4 programs of two readers racing packet delivery, all schedules with <=2 preemptions.",
+  "Every payload length 0..1472 over IPv4, IPv6 and v4-mapped destinations through sender kinds {bound *, bound specific, connected, unbound} x receiver kinds {bound *, bound specific, connected}; lengths {1473, 2000, 65507, 65508, 65527, 65528, 65535, 65536}: one emitted packet with exactly those bytes and consistent length fields, or an error and no packet; every Read returns one datagram byte-for-byte with the true source address/port, once; all sequences of length <=5 (6) over sends from two senders, read, shutdown(read), shutdown(write), shutdown(read+write), close against the fixed 32 KiB receive buffer; raw datagrams whose IP payload is longer than the UDP length; 4 programs of two readers racing packet delivery, all schedules with <=2 preemptions.",
   "A datagram that fits must be accepted; one that does not may be dropped whole.",
   "DESIGN.md §5 C11"),
  "C13": ("enum",
